@@ -3581,8 +3581,10 @@ class SSHClientConnection(SSHConnection):
 
             port = self._port if self._port != DEFAULT_PORT else None
 
+            # As in OpenSSH, the address isn't looked up when an alias is set
             self._match_known_hosts(cast(KnownHostsArg, self._known_hosts),
                                     self._host_key_alias or self._host,
+                                    '' if self._host_key_alias else
                                     self._peer_addr, port)
 
         default_host_key_algs = []
